@@ -24,6 +24,9 @@ type vUCall struct {
 
 var vULog []vUCall
 
+// vUNoFail: rules only log their invocation (used where the observable is the set of (path, rule) events)
+var vUNoFail bool
+
 var vDigits = []string{"0", "1", "2", "3", "4", "5", "6", "7", "8", "9", "10", "11", "12", "13", "14", "15", "16", "17", "18", "19", "20", "21", "22", "23", "24", "25", "26", "27", "28", "29", "30", "31"}
 
 func vNum(i int) string {
@@ -39,7 +42,7 @@ func vURule(tag string) CommonValidFn {
 	return func(errBuf *strings.Builder, validName, objName, fieldName string, tv reflect.Value) {
 		id := len(vULog)
 		c := vUCall{validName: validName, obj: objName, field: fieldName}
-		if vndBool("fail" + vNum(id)) {
+		if !vUNoFail && vndBool("fail"+vNum(id)) {
 			c.failed = true
 			c.clause = "<" + tag + "#" + vNum(id) + " " + objName + "." + fieldName + ">" + ErrEndFlag
 			errBuf.WriteString(c.clause)
@@ -422,5 +425,59 @@ func vCheckAgainstRef(tag string, err error, r *vRef) {
 			n += len(g)
 		}
 		vAssert(len(got) == n && len(got) >= len(want) && got[:len(want)] == want, tag+": field clauses in order, group clauses last")
+	}
+}
+
+// vCheckUnordered compares the multiset of rule invocations and the multiset of
+// clauses (inputs containing maps with two or more entries: Go's iteration order is unspecified).
+func vCheckUnordered(tag string, err error, r *vRef) {
+	var want, got []string
+	var wantClauses []string
+	for _, e := range r.out {
+		if e.isCall {
+			want = append(want, e.obj+"|"+e.field+"|"+e.validName)
+		} else {
+			wantClauses = append(wantClauses, e.text)
+		}
+	}
+	for _, c := range vULog {
+		got = append(got, c.obj+"|"+c.field+"|"+c.validName)
+		if c.failed {
+			wantClauses = append(wantClauses, c.clause)
+		}
+	}
+	vSortStrings(want)
+	vSortStrings(got)
+	vAssert(len(want) == len(got), tag+": number of rule evaluations")
+	if len(want) != len(got) {
+		return
+	}
+	for i := range want {
+		vAssert(want[i] == got[i], tag+": set of (path, rule) evaluations")
+	}
+	wantClauses = append(wantClauses, r.groupClauses()...)
+	var gotClauses []string
+	if err != nil {
+		gotClauses = strings.Split(err.Error(), ErrEndFlag)
+		for i := range gotClauses {
+			gotClauses[i] += ErrEndFlag
+		}
+	}
+	vSortStrings(wantClauses)
+	vSortStrings(gotClauses)
+	vAssert(len(wantClauses) == len(gotClauses), tag+": number of clauses")
+	if len(wantClauses) != len(gotClauses) {
+		return
+	}
+	for i := range wantClauses {
+		vAssert(wantClauses[i] == gotClauses[i], tag+": set of clauses")
+	}
+}
+
+func vSortStrings(a []string) {
+	for i := 1; i < len(a); i++ {
+		for j := i; j > 0 && a[j] < a[j-1]; j-- {
+			a[j], a[j-1] = a[j-1], a[j]
+		}
 	}
 }
